@@ -45,6 +45,7 @@ from typing import (
 )
 
 from .._dns import DNSPointer, DNSQuestion, DNSQuestionType
+from .._exceptions import NamePartTooLongException
 from .._logger import log
 from .._protocol.outgoing import DNSOutgoing
 from .._record_update import RecordUpdate
@@ -545,7 +546,14 @@ class QueryScheduler:
         outs = generate_service_query(self._zc, now_millis, ready_types, self._multicast, question_type)
         if outs:
             for out in outs:
-                self._zc.async_send(out, self._addr, self._port)
+                try:
+                    self._zc.async_send(out, self._addr, self._port)
+                except NamePartTooLongException:
+                    # A known answer learned from the network cannot always be
+                    # written again: a label received with invalid UTF-8 grows when
+                    # it is decoded leniently. Losing this query must not stop the
+                    # scheduler.
+                    log.debug("Dropping query %r: a known answer cannot be encoded", out)
 
 
 class _ServiceBrowserBase(RecordUpdateListener):
